@@ -14,9 +14,12 @@ EXPLANATION = (
     "vector; Hyrax: one response vector; linear codes: paths, v, columns + optional well-formedness vector). A "
     "constant-size serialization cannot carry a length-prefixed sequence, so a growable field breaks the size law for "
     "every input. The same walk checks the flow engine's assumption that the crate's own types have no interior "
-    "mutability and no mutable statics (with a positive fixture). Length laws (log d rounds, 2^(n/2), sqrt balancing) "
+    "mutability and no mutable statics (with a positive fixture). R1L (first-value form): in commit / open / check of "
+    "the linear-code schemes and Hyrax, whose artefact sizes follow a per-polynomial matrix shape, no single slot is "
+    "filled first-wins inside a loop with a per-element value - the shape computed for the first polynomial is not "
+    "imposed on the later ones. Length laws (log d rounds, 2^(n/2), sqrt balancing) "
     "are runtime facts and are not decided.")
-RULE = "instances = constant-size artefacts + vector-count rows + interior-mutability / static-mut scan"
+RULE = "instances = constant-size artefacts + vector-count rows + interior-mutability / static-mut scan + 6 first-value rows"
 
 GROWABLE = ("std::vec::Vec", "alloc::vec::Vec", "std::collections::VecDeque", "std::collections::BTreeMap",
             "std::collections::BTreeSet", "std::collections::HashMap", "std::collections::HashSet",
@@ -129,3 +132,27 @@ def run(rep, ctx, tier):
     growable_in({"k": "adt", "path": "std::option::Option", "local": False, "args": [{"k": "adt", "path": "std::vec::Vec", "local": False, "args": []}]},
                 adts, ["fixture"], gx, set())
     rep.add("R14", "fixture:detectors", bool(fx) and bool(gx), "positive fixtures for the interior-mutability and growable-container detectors match", None)
+    # R1L (first-value form) on the committers / provers whose artefact sizes follow a per-polynomial shape: the shape of
+    # one polynomial's matrix (rows, columns, t) is not kept in a first-wins slot and reused for the next polynomial
+    from ..rules import everyiter as R1D
+    from ..flow import Graph
+    from .. import tables as T
+    f = ctx.facts
+    n_scopes = 0
+    for sk in ("linear_codes", "hyrax"):
+        adt = T.SCHEMES[sk]["adt"]
+        for m in ("commit", "open", "check"):
+            b = f.find1(m, self_adt=adt, trait=T.PC)
+            if b is None:
+                rep.add("R1L", "%s.%s:anchor" % (sk, m), False, "%s.%s not found (fail closed)" % (sk, m), None)
+                continue
+            n_scopes += 1
+            g = Graph(f, f.closure([b.id], adt), [b.id], adt)
+            bad = R1D.first_value_only(g)
+            rep.add("R1L", "%s.%s:no-first-value-shape" % (sk, m), not bad,
+                    "no single slot is filled first-wins inside a loop with a per-element value" if not bad else
+                    "the single slot filled by `%s` at %s sits in a loop and is offered a value that differs from element to "
+                    "element: the first polynomial's shape is kept and imposed on every later one" % (
+                        (bad[0][2].get("callee") or "?").rsplit("::", 1)[-1], bad[0][2]["span"]),
+                    bad[0][2]["span"] if bad else b.span)
+    rep.count("R1L scopes", n_scopes)
